@@ -27,10 +27,10 @@ func init() {
 				Flavours: []string{"plain", "race", "cover"},
 				Blocks:   16,
 				Procs:    16,
-				Rule: "case = a string s or a list ss. Exhaustive: every single byte 1..255 alone and embedded in four positions; every string of length <= 3 (<= 4 thorough) over a 24-byte alphabet of every shell metacharacter, both quotes, backslash, blank, tab, newline, glob/comment/tilde/assignment characters, two plain letters and a two-byte non-ASCII rune; random lists of 0..4 such strings (incl. the empty string and the empty list) and random byte strings up to 40 bytes incl. invalid UTF-8. " +
+				Rule: "case = a string s or a list ss. Exhaustive: every single byte 1..255 alone and embedded in four positions; every string of length <= 3 (<= 4 thorough) over a 24-byte alphabet of every shell metacharacter, both quotes, backslash, blank, tab, newline, glob/comment/tilde/assignment characters, two plain letters and a two-byte non-ASCII rune; strings of 4090..70000 bytes around common buffer sizes (quoted spans longer than 4096 and 65536 bytes); random lists of 0..4 such strings (incl. the empty string and the empty list) and random byte strings up to 40 bytes incl. invalid UTF-8. " +
 					"Per string: Split(Quote(s)) == [s], the independent scanner (special byte only inside single quotes or after a backslash; unquoting gives s), and dash + 'bash +B' evaluating 'emit Quote(s)' in a directory with bait files (a b ab [a] x=y ~ #a ...) and HOME set; per list: Split(Join(ss)) == ss && complete, and the shells on Join(ss). Quote and Join calls are interleaved and every result is kept and re-verified at the end (pool aliasing); under -race 8 goroutines do the same concurrently. " +
 					"distinct = the string/list itself (enumerated; random ones by hash); non-trivial = it contains a byte that needs protection, or is empty",
-				Required:     []string{"strings_checked", "lists_checked", "scanner_checks", "shell_words_dash", "shell_words_bash", "kept_results_rechecked", "concurrent_calls", "all_single_bytes"},
+				Required:     []string{"strings_checked", "lists_checked", "scanner_checks", "shell_words_dash", "shell_words_bash", "kept_results_rechecked", "concurrent_calls", "all_single_bytes", "long_strings"},
 				Exhaustive:   true,
 				Assumptions:  []string{"dash and bash (+B, LC_ALL=C) as installed are the POSIX shells consulted", "strings containing NUL are not passed to the shells"},
 				CoverPkgs:    []string{"github.com/creachadair/mds/shell"},
@@ -285,6 +285,23 @@ func runC15(c *fw.Ctx) {
 	}
 	idx += code + 1
 
+	// long strings: quoted spans beyond common buffer sizes (4096, 8192, 65536)
+	if c.Block < 8 && c.Begin(idx+700000+c.Block) {
+		lens := []int{4090, 4094, 4095, 4096, 4097, 4100, 5000, 8191, 8192, 8193, 20000, 65536, 70000}
+		for li, L := range lens {
+			if li%8 != c.Block {
+				continue
+			}
+			for _, unit := range []string{"a b", "x", "$y ", "it's ", "é*"} {
+				s := strings.Repeat(unit, L/len(unit)+1)[:L]
+				m.checkString(s)
+				m.checkString(s + "'" + s[:10])
+				m.checkList([]string{"pre", s, "", s[:L/2], "post"})
+				c.Add("long_strings", 3)
+			}
+		}
+		m.recheck(rig)
+	}
 	// random lists and random byte strings
 	nr := c.Pick(1500, 20000)
 	if light {
